@@ -18,7 +18,7 @@ EXPLANATION = (
     "linearizability of the deque; moodycamel's ConcurrentQueue (third party) is not analysed.")
 ASSUMPTIONS = ["std::atomic<range>::compare_exchange_weak is atomic on the 64-bit range word", "tagged_ptr_pair::cas is a 128-bit compare-exchange"]
 THOROUGH_CONFIGS = [["-UNDEBUG", "-DPIKA_DEBUG"]]
-FLOORS = {"C17.R1": 6, "C17.R2": 2, "C17.R3": 3, "C17.R4": 12, "C17.R5": 9, "C17.R6": 1}
+FLOORS = {"C17.R1": 6, "C17.R2": 2, "C17.R3": 3, "C17.R4": 12, "C17.R5": 9, "C17.R6": 1, "C17.R7": 2}
 
 CIQ = "pika::concurrency::detail::contiguous_index_queue"
 _cache = {}
@@ -169,6 +169,7 @@ def run(rep, tier):
     rep.rule("C17.R2", "offsets: pop_left returns first / installs [first+1,last); pop_right returns last-1 / installs [first,last-1)")
     rep.rule("C17.R3", "K9: range fits a lock-free 64-bit atomic")
     rep.rule("C17.R4", "K8/K6: deque: every anchor/link CAS changes the tag; success reported only after a successful anchor CAS; unstable push followed by stabilize")
+    rep.rule("C17.R7", "K8 (interface agreement with boost's freelist_stack): the free lists behind the lock-free deque allocate and deallocate nodes with ThreadSafe = true")
     rep.rule("C17.R6", "K8 (vendored FIFO queue, one structural clause only): when a producer's circular block index grows, the old ring is copied in logical order - the source position starts from the ring's tail and wraps around - not as a flat array (after the ring has rotated a flat copy permutes the blocks: FIFO order breaks, blocks are released early)")
     rep.rule("C17.R5", "K8: back-ends: one container operation per push/pop path; LIFO/FIFO/steal ends")
     index_queue_rules(rep, "C17.R1")
@@ -281,6 +282,28 @@ def run(rep, tier):
                 rep.ok("C17.R5", be, "%s: push at %s, owner pops %s, thief pops %s" % (be, push_end, pop_owner, pop_steal))
             else:
                 rep.bad("C17.R5", be, fs[0].loc, be + ":ends", "%s: push at %s, owner pops %s, thief pops %s - does not match its %s%s discipline" % (be, push_end, pop_owner, pop_steal, kind, " + steal-from-the-other-end" if abp else ""))
+
+    # ---- R7: node recycling of the deque goes through the thread-safe operations of boost's freelist_stack
+    # (template <bool ThreadSafe, bool Bounded> allocate, template <bool ThreadSafe> deallocate: ThreadSafe selects the
+    # atomic implementation; the other one is documented for single-threaded use)
+    FL = facts(rep, driver("c17_queues.cpp"), [r"^pika::concurrency::detail::(caching|static)_freelist::(allocate|deallocate)$"])
+    fl = [f for f in FL.fns if not f.pattern and f.parent == -1]
+    if len(fl) < 2:
+        raise AnalysisBroken("freelist allocate/deallocate not instantiated")
+    for fn in fl:
+        ops_ = [e for _, _, e in fn.all_events() if e.get("k") == "call" and callee_of(e).startswith("boost::lockfree::detail::freelist_stack::")]
+        if len(ops_) != 1:
+            raise AnalysisBroken("%s: expected one freelist_stack operation" % fn.full)
+        ta = ops_[0].get("targs")
+        if not ta:
+            raise AnalysisBroken("%s: template arguments of %s not available" % (fn.full, callee_of(ops_[0])))
+        if ta[0] == "true":
+            rep.ok("C17.R7", fn, "%s -> %s<%s>: the thread-safe implementation" % (fn.qname.rsplit("::", 2)[-2] + "::" + fn.qname.rsplit("::", 1)[-1], callee_short(ops_[0]), ", ".join(ta)))
+        else:
+            rep.bad("C17.R7", fn, loc_of(ops_[0]), "freelist-not-thread-safe:" + fn.qname.rsplit("::", 2)[-2] + "::" + fn.qname.rsplit("::", 1)[-1],
+                    "%s calls %s<%s>: ThreadSafe = %s selects boost's non-atomic free-list operation, while the deque recycles nodes from several threads at once - a node that another "
+                    "thread has just allocated is linked back into the free list and handed out twice (elements duplicated / lost, pops fail on a non-empty deque)"
+                    % (fn.qname.rsplit("::", 2)[-2] + "::" + fn.qname.rsplit("::", 1)[-1], callee_short(ops_[0]), ", ".join(ta), ta[0]))
 
     # ---- R6: ring growth of the vendored concurrent queue's implicit producer (the one lockfree_fifo uses)
     NB = [f for f in D.find(r"ConcurrentQueue::ImplicitProducer::new_block_index$") if not f.pattern and f.parent == -1]
